@@ -272,8 +272,20 @@ def gf_ops(ctx):
 
 
 def prov_rsenc(ctx):
+    """PROV-RSENC: decided by folding encode_error symbolically for all 48 sizes (rsenc_exec); the statement-shape analysis
+    below is only the fallback for a body the folder cannot execute."""
     r = "PROV-RSENC"
     f = ctx.facts()
+    okx, detx = rsenc_exec(ctx)
+    if okx is not None:
+        site0 = T.span_str(f.thir[ENC]["span"]) if ENC in f.thir else None
+        names = [("block-loop", "every interleaved block of the size is encoded, once"), ("one-ecc_block-call", "one block encoder call per block"),
+                 ("gen", "generator polynomial = generator(block_setup(size).num_ecc_per_block)"),
+                 ("input-stride", "block b is fed the strided view data[b], data[b+B], .. with B = num_ecc_blocks"),
+                 ("scratch-len", "the LFSR scratch register has num_ecc_per_block + 1 cells"), ("scratch-reset", "the scratch register is zero before each block's division"),
+                 ("output-interleave", "block b's error codewords are written to result positions b, b+B, b+2B, .."),
+                 ("result-len", "the returned vector has num_ecc_per_block * num_ecc_blocks entries and is the interleaved buffer")]
+        return [Ob(r, k, bool(okx), "%s - %s" % (w, detx), site=site0) for k, w in names]
     sts, _ = T.fn_stmts(f, ENC)
     need(sts is not None, r, ENC)
     b = f.thir[ENC]
@@ -785,8 +797,18 @@ def synzero(ctx):
 
 
 def prov_rsdec(ctx):
+    """PROV-RSDEC: decided by folding decode() symbolically for all 48 sizes (rsdec_exec); the statement-shape analysis below
+    is the fallback for a body the folder cannot execute."""
     r = "PROV-RSDEC"
     f = ctx.facts()
+    okx, detx = rsdec_exec(ctx)
+    if okx is not None:
+        site0 = T.span_str(f.thir[DEC]["span"]) if DEC in f.thir else None
+        names = [("split", "the codeword vector is split at num_data_codewords(size) into data and error part"),
+                 ("block-loop", "every interleaved block of the size is decoded"), ("one-call", "one block decoder call per block"),
+                 ("arg:data", "block b reads/corrects the data codewords b, b+B, b+2B, .."), ("arg:error", "block b reads/corrects the error codewords b, b+B, .."),
+                 ("arg:stride", "the stride is the number of blocks"), ("arg:err_len", "the number of syndromes is the size's error codewords per block")]
+        return [Ob(r, k, bool(okx), "%s - %s" % (w, detx), site=site0) for k, w in names]
     dsts, _ = T.fn_stmts(f, DEC)
     need(dsts is not None, r, DEC)
     b = f.thir[DEC]
@@ -1137,3 +1159,148 @@ def root_cover(ctx):
     obs.append(Ob(r, "advance", oks, "after every test each running term is multiplied by its power of the primitive element (all coefficients, every iteration)"))
     obs += floor(obs, r, 5, "root search obligations")
     return obs
+
+
+# ---- PROV-RSENC by symbolic execution ----------------------------------------------------------------
+
+def rsenc_exec(ctx, sizes=None):
+    """encode_error folded for every symbol size with opaque data codewords d0, d1, .. and an opaque block encoder: which
+    codewords each block is fed, with which generator, on what scratch register, and where its error codewords end up in
+    the result.  The wiring does not depend on codeword values, so one run per size decides all inputs.  (ok, detail)"""
+    f = ctx.facts()
+    b = f.thir.get(ENC)
+    if b is None:
+        return False, "encode_error not found"
+    t = p_symbols.tables(ctx)
+    pn = [p_["pat"]["name"] for p_ in b["params"] if p_.get("pat", {}).get("k") == "Bind"]
+    if len(pn) != 2:
+        return None, "unexpected parameters"
+    n = 0
+    for v in (sizes or t["variants"]):
+        su, nd = t["setup"].get(v), t["data"].get(v)
+        if not isinstance(su, dict) or not isinstance(nd, int):
+            return False, "no tables for %s" % v
+        B, k = su["num_ecc_blocks"], su["num_ecc_per_block"]
+        calls = []
+
+        def on_call(folder, c, calls=calls, su=su, nd=nd, k=k, v=v):
+            cc = T.canon(T.callee_of(c))
+            if cc == SS + "::block_setup":
+                d = {"__adt__": "symbol_size::BlockSetup", "__variant__": "BlockSetup"}
+                names = T.ADT_FIELDS.get("symbol_size::BlockSetup") or list(su)
+                for i, nm in enumerate(names):
+                    d[nm] = su.get(nm)
+                    d["#%d" % i] = su.get(nm)
+                return d
+            if cc == SS + "::num_data_codewords":
+                return nd
+            if cc == GEN:
+                return T.Token("gen%s" % folder.fold(c["args"][0]))
+            if cc == ECCB:
+                stream = folder.fold(c["args"][0])
+                gen = folder.fold(c["args"][1])
+                ecc = folder.fold(c["args"][2])
+                if not isinstance(stream, list) or not isinstance(ecc, list):
+                    raise T.Undecidable("ecc_block arguments do not fold to sequences")
+                blk = len(calls)
+                calls.append(([str(T._loaded(x)) for x in stream], str(gen), len(ecc), all(T._loaded(x) == 0 for x in ecc)))
+                for j in range(len(ecc) - 1):
+                    T.Ref(ecc, j).store(T.Token("b%de%d" % (blk, j)))
+                return None
+            return NotImplemented
+        fo = T.Folder(f, env={pn[0]: [T.Token("d%d" % i) for i in range(nd)], pn[1]: v}, on_call=on_call, effects=True, local_calls=2)
+        fo.max_iter = 5000
+        fo.opaque_consts = True
+        try:
+            res = fo.run(b["body"])
+        except T.Trap as ex:
+            return False, "%s: encode_error traps: %s" % (v, ex)
+        except T.Undecidable as ex:
+            return None, "%s: encode_error does not fold: %s" % (v, ex)
+        if len(calls) != B:
+            return False, "%s: %d blocks are encoded, the size has %d" % (v, len(calls), B)
+        for blk, (stream, gen, nreg, clean) in enumerate(calls):
+            want = ["d%d" % i for i in range(blk, nd, B)]
+            if stream != want:
+                return False, "%s block %d is fed %d codewords %s.., expected the strided view %s.." % (v, blk, len(stream), stream[:4], want[:4])
+            if gen != "gen%d" % k:
+                return False, "%s block %d uses generator %s, expected gen%d" % (v, blk, gen, k)
+            if nreg != k + 1 or not clean:
+                return False, "%s block %d: scratch register of %d cells, zeroed: %s (expected %d zeroed cells)" % (v, blk, nreg, clean, k + 1)
+        out = [str(T._loaded(x)) for x in res] if isinstance(res, list) else None
+        want = ["b%de%d" % (p_ % B, p_ // B) for p_ in range(k * B)]
+        if out != want:
+            bad = next((i for i in range(min(len(out or []), len(want))) if out[i] != want[i]), None)
+            return False, "%s: result has %s entries, position %s holds %s, expected %s (error codewords interleaved block by block)" % (
+                v, len(out) if out is not None else "no", bad, out[bad] if out and bad is not None else None, want[bad] if bad is not None else len(want))
+        n += 1
+    return True, "%d symbol sizes: every block gets its strided data view, the size's generator and a zeroed k+1 register; results interleaved" % n
+
+
+def rsdec_exec(ctx, sizes=None):
+    """decode() folded for every symbol size with opaque codewords c0, c1, .. and an opaque syndrome evaluation that reports
+    `all zero`: which codewords, in which order, each block's syndromes are computed from, and into how many syndrome cells.
+    (The decoder leaves a block alone when its syndromes vanish, so every block is reached.)  (ok, detail)"""
+    f = ctx.facts()
+    b = f.thir.get(DEC)
+    if b is None:
+        return False, "decode not found"
+    t = p_symbols.tables(ctx)
+    pn = [p_["pat"]["name"] for p_ in b["params"] if p_.get("pat", {}).get("k") == "Bind"]
+    if len(pn) != 2:
+        return None, "unexpected parameters"
+    n = 0
+    for v in (sizes or t["variants"]):
+        su, nd = t["setup"].get(v), t["data"].get(v)
+        B, k = su["num_ecc_blocks"], su["num_ecc_per_block"]
+        total = nd + B * k
+        calls = []
+
+        def on_call(folder, c, calls=calls, su=su, nd=nd):
+            cc = T.canon(T.callee_of(c))
+            if cc == SS + "::block_setup":
+                d = {"__adt__": "symbol_size::BlockSetup", "__variant__": "BlockSetup"}
+                names = T.ADT_FIELDS.get("symbol_size::BlockSetup") or list(su)
+                for i, nm in enumerate(names):
+                    d[nm] = su.get(nm)
+                    d["#%d" % i] = su.get(nm)
+                return d
+            if cc == SS + "::num_data_codewords":
+                return nd
+            if cc == PEE:
+                word = folder.fold(c["args"][0])
+                syn = folder.fold(c["args"][1])
+                if not isinstance(word, list) or not isinstance(syn, list):
+                    raise T.Undecidable("syndrome evaluation arguments do not fold to sequences")
+                calls.append(([str(T._loaded(x)) for x in word], len(syn)))
+                return False
+            if cc.endswith("split_at_mut") and len(c["args"]) == 2:
+                v0 = T._loaded(folder.fold(c["args"][0]))
+                m = folder.fold(c["args"][1])
+                if isinstance(v0, list) and isinstance(m, int) and 0 <= m <= len(v0):
+                    return ([x if isinstance(x, T.Ref) else T.Ref(v0, i) for i, x in enumerate(v0)][:m], [x if isinstance(x, T.Ref) else T.Ref(v0, i) for i, x in enumerate(v0)][m:])
+            return NotImplemented
+        fo = T.Folder(f, env={pn[0]: [T.Token("c%d" % i) for i in range(total)], pn[1]: v}, on_call=on_call, effects=True, local_calls=3)
+        fo.views = True
+        fo.max_iter = 5000
+        fo.opaque_consts = True
+        try:
+            res = fo.run(b["body"])
+        except T.Trap as ex:
+            return False, "%s: decode traps on an error-free word: %s" % (v, ex)
+        except T.Undecidable as ex:
+            return None, "%s: decode does not fold: %s" % (v, ex)
+        if not (isinstance(res, dict) and res.get("__variant__") == "Ok"):
+            return False, "%s: an error-free word is not accepted (%r)" % (v, res.get("__variant__") if isinstance(res, dict) else res)
+        if len(calls) != B:
+            return False, "%s: syndromes are computed for %d blocks, the size has %d" % (v, len(calls), B)
+        for blk, (word, nsyn) in enumerate(calls):
+            want = ["c%d" % i for i in range(blk, nd, B)] + ["c%d" % i for i in range(nd + blk, total, B)]
+            if word != want:
+                bad = next((i for i in range(min(len(word), len(want))) if word[i] != want[i]), min(len(word), len(want)))
+                return False, "%s block %d: the syndromes are computed from %d codewords (%s at position %d), expected the interleaved block of %d (%s there)" % (
+                    v, blk, len(word), word[bad] if bad < len(word) else None, bad, len(want), want[bad] if bad < len(want) else None)
+            if nsyn != k:
+                return False, "%s block %d: %d syndromes, the size has %d error codewords per block" % (v, blk, nsyn, k)
+        n += 1
+    return True, "%d symbol sizes: block b's syndromes come from data[b], data[b+B], .. followed by error[b], error[b+B], .. into k cells, for every block" % n
